@@ -931,3 +931,53 @@ def rf48(run):
             'the reversed branch must test the negated relation with the same width and signedness (%s)' % (exp or 'no reversal exists')
         run.violation(rule, f, 'reversal of %s' % nm, 'MIR_reverse_branch_code maps %s to %s: %s' % (nm, rn, why), line=f.line)
     run.min_instances(rule, 150)
+
+
+# ---------------------------------------------------------------------------------------------
+# RF49: the overlap test of two constant-offset memory ranges (dead store elimination)
+# ---------------------------------------------------------------------------------------------
+
+def rf49(run):
+    rule = 'RF49'
+    run.rule(rule, 'alloca_mem_intersect_p: once both displacements are known and based on the same alloca, the result is TRUE exactly '
+                   'when the byte ranges [disp1, disp1 + size1) and [disp2, disp2 + size2) overlap — evaluated for all displacements '
+                   '0..24 and sizes 1, 2, 4, 8, 16; a FALSE for overlapping ranges lets dead-store elimination delete a store that a later '
+                   'load of another size still reads')
+    gen = run.tu('gen')
+    f = gen.func('alloca_mem_intersect_p')
+    run.functions_analysed.add(('gen', f.name))
+    ks = F.kids(f.body)
+    last = -1
+    for i, st in enumerate(ks):
+        if st['k'] == 'BinaryOperator' and st['op'] == '=' and F.src(F.strip(st['c'][0])) in ('disp1', 'disp2', 'size1', 'size2'):
+            last = i
+    if last < 0:
+        raise F.AnalysisBroken('alloca_mem_intersect_p: the assignments of disp1/disp2/size1/size2 were not found')
+    tail = ks[last + 1:]
+    me = MayEval(gen)
+    n = 0
+    first = None
+    for s1 in (1, 2, 4, 8, 16):
+        for s2 in (1, 2, 4, 8, 16):
+            for d1 in range(0, 25):
+                for d2 in range(0, 25):
+                    rs = me.returns(tail, {'disp1': d1, 'disp2': d2, 'size1': s1, 'size2': s2})
+                    if rs is None or len(rs) != 1:
+                        raise F.AnalysisBroken('alloca_mem_intersect_p: tail not evaluable (%s)' % rs)
+                    got = bool(next(iter(rs)))
+                    exp = d1 < d2 + s2 and d2 < d1 + s1
+                    ok = got == exp
+                    n += 1
+                    if not ok and first is None:
+                        first = (d1, s1, d2, s2, got)
+                    if not ok or n % 997 == 0:
+                        run.ob(rule, (d1, s1, d2, s2), ok, {'range 1': '[%d, %d)' % (d1, d1 + s1), 'range 2': '[%d, %d)' % (d2, d2 + s2), 'reported': got, 'overlap': exp})
+                    else:
+                        run.ob(rule, (d1, s1, d2, s2), ok)
+    if first:
+        d1, s1, d2, s2, got = first
+        run.violation(rule, f, 'overlap of [%d,%d) and [%d,%d)' % (d1, d1 + s1, d2, d2 + s2),
+                      'alloca_mem_intersect_p reports %s for the ranges [%d, %d) and [%d, %d), which %s: %s'
+                      % ('an intersection' if got else 'no intersection', d1, d1 + s1, d2, d2 + s2, 'do not overlap' if got else 'overlap',
+                         'a store that is still read is deleted as dead' if not got else 'the elimination is only less effective'), line=f.line)
+    run.min_instances(rule, 10000)
